@@ -519,8 +519,13 @@ func (fx *FX) execBuiltin(fr *frame, st *State, b *ssa.Builtin, cc *ssa.CallComm
 		case *types.Pointer:
 			r = withSign(BVLit(uint64(u.Elem().Underlying().(*types.Array).Len()), 64), true)
 		case *types.Map:
-			w.Declare("map_len", "(declare-fun map_len (Int) (_ BitVec 64))")
-			r = withSign(app("map_len", SBV64, x), true)
+			if strings.HasPrefix(x.S, "GL_") {
+				w.Declare("map_len", "(declare-fun map_len (Int) (_ BitVec 64))")
+				r = withSign(app("map_len", SBV64, x), true)
+			} else {
+				ns := fx.comp(st, "ML:"+sortID(w.SortOf(u.Key())), SArr(SInt, SBV64))
+				r = withSign(Select(ns, x), true)
+			}
 		default:
 			fx.unsupportedf("len of %s", cc.Args[0].Type())
 		}
